@@ -167,6 +167,7 @@ def run(ctx: core.Run):
     finally:
         _logging.disable(_lvl)
     ctx.extra["creation_table_rows"] = len(creation)
+    ctx.extra["save_shape"] = ctx.regenerate(c03_modes.gen_save_shape)
     ctx.prove(["PsdVerif.Props.C03", "PsdVerif.Props.C03Pixels", "PsdVerif.Props.C03Creation", "PsdVerif.Props.C03Payload"])
     import c03_payload
     recorder = c03_payload.Recorder().install()      # every file the skeleton walker accepts goes to the payload walkers too
@@ -402,6 +403,14 @@ def _run_rest(ctx, tables, creation, t0, c03_modes, _logging, _lvl):
         if c03_payload_recorder is not None:
             c03_payload_recorder.enabled = True
     __import__("c03_writers").run(ctx, fx_all)
+    # ---- Pascal strings at the limit of their length byte, at every call site of the writers
+    t1 = time.time()
+    _logging.disable(_logging.CRITICAL)
+    try:
+        __import__("c03_pascal").run(ctx, fx_all)
+    finally:
+        _logging.disable(_lvl)
+    ctx.extra["pascal_seconds"] = round(time.time() - t1, 1)
     # ---- every creation entry point x every mode it accepts x depth x compression x PSD/PSB
     t1 = time.time()
     _logging.disable(_logging.CRITICAL)
